@@ -429,6 +429,13 @@ def execApply (height : Nat) (tx : Tx) (s : St) : St × Bool :=
             [⟨mid, typ, stake, account, true, 0, 0, height + Rangers.Generated.NondetSites.cHeightAfterStake, false, true⟩] }, true)
   | _ => (s, false)
 
+/-- `core.deductGasFee` (Proposal027, failed contract transaction): the gas fee
+    `gasUsed · DefaultGasPrice`, capped by the sender's balance, moves to the fee account -/
+def deductGasFee (s : St) (src feeAccount gasUsed : Nat) : St :=
+  let fee := gasUsed * Rangers.Generated.NondetSites.cGasPrice
+  let paid := if s.bal src < fee then s.bal src else fee
+  addBal (subBal s src paid) feeAccount paid
+
 /-- the executors the model interprets; `none` for every other type -/
 def execModelled (height : Nat) (tx : Tx) (s : St) (q : List (Nat × Addr × Nat)) :
     Option (St × Bool × Bytes × List (Nat × Addr × Nat)) :=
